@@ -20,3 +20,23 @@ pub use server::lib_main;
 
 #[cfg(not(target_arch = "wasm32"))]
 pub use worker::worker_main;
+
+/// Verification hook: the analysis the language server runs on every edit, as a plain
+/// function of the text; returns the ranges of the diagnostics
+/// (start line, start character, end line, end character).
+#[cfg(all(mimium_verif, not(target_arch = "wasm32")))]
+pub fn verif_analyze(src: &str) -> Vec<[u32; 4]> {
+    let url = tower_lsp::lsp_types::Url::parse("file:///verif.mmm").unwrap();
+    analysis::analyze_source(src, url, &[])
+        .diagnostics
+        .iter()
+        .map(|d| {
+            [
+                d.range.start.line,
+                d.range.start.character,
+                d.range.end.line,
+                d.range.end.character,
+            ]
+        })
+        .collect()
+}
